@@ -42,6 +42,7 @@ type Run struct {
 	evals        int64
 	shapes       map[uint64]struct{}
 	samples      []any
+	shapeSamples []string
 	maxSamples   int
 	counters     map[string]int64
 	violations   []Violation
@@ -158,6 +159,9 @@ func (r *Run) Eval(shape string) {
 	if shape != "" {
 		h := fnv.New64a()
 		h.Write([]byte(shape))
+		if _, seen := r.shapes[h.Sum64()]; !seen && len(r.shapeSamples) < 4 {
+			r.shapeSamples = append(r.shapeSamples, shape)
+		}
 		r.shapes[h.Sum64()] = struct{}{}
 	}
 	r.mu.Unlock()
@@ -268,8 +272,13 @@ func (r *Run) Finish(required ...string) int {
 	for k, v := range r.extra {
 		cov[k] = v
 	}
-	if r.samples == nil {
-		cov["samples"] = []any{}
+	if len(r.samples) == 0 {
+		// fall back to the shapes of the first distinct cases
+		fb := make([]any, 0, len(r.shapeSamples))
+		for _, s := range r.shapeSamples {
+			fb = append(fb, map[string]any{"case_shape": s})
+		}
+		cov["samples"] = fb
 	}
 	evd := map[string]any{
 		"property_id": r.ID,
